@@ -65,17 +65,17 @@ func c02(r *core.Report, p *core.Prog, thorough bool) {
 	const fnNewCache = "github.com/0chain/common/core/statecache.NewTransactionCache"
 	const fnCreate = pkgChain + ".CreateTxnMPT"
 	const fnNewCtx = "(*" + pkgChain + ".Chain).NewStateContext"
-	caches, mpts, ctxs := findCalls(us, fnNewCache), findCalls(us, fnCreate), findCalls(us, fnNewCtx)
+	caches, mpts, ctxs := ctxNodes(us, fnNewCache), ctxNodes(us, fnCreate), ctxNodes(us, fnNewCtx)
 	var emit []*ssa.Call
 	for _, cs := range core.CallsIn(us, false, func(c *ssa.CallCommon) bool { return isSCtxCall(c, "EmitError") }) {
 		emit = append(emit, cs.Instr.(*ssa.Call))
 	}
 	if !r.Check(len(caches) == 2 && len(mpts) == 2 && len(ctxs) == 2 && len(emit) == 1, "C02.rebind", "updateState:recreation-calls", p.Pos(us.Pos()),
-		fmt.Sprintf("NewTransactionCache=%d CreateTxnMPT=%d NewStateContext=%d EmitError=%d (want 2,2,2,1: initial + chargeable-error re-creation)", len(caches), len(mpts), len(ctxs), len(emit))) {
+		fmt.Sprintf("NewTransactionCache=%d CreateTxnMPT=%d NewStateContext=%d EmitError=%d (want 2,2,2,1: initial + chargeable-error re-creation, each made directly or through a constructor helper that returns it)", len(caches), len(mpts), len(ctxs), len(emit))) {
 		return
 	}
 	// order by dominance: the original dominates the re-created one
-	ord := func(a, b *ssa.Call) (*ssa.Call, *ssa.Call) {
+	ord := func(a, b ctxNode) (ctxNode, ctxNode) {
 		if b.Block().Dominates(a.Block()) && a.Block() != b.Block() {
 			return b, a
 		}
@@ -86,7 +86,7 @@ func c02(r *core.Report, p *core.Prog, thorough bool) {
 	ox, nx := ord(ctxs[0], ctxs[1])
 	em := emit[0]
 	// dataflow of the re-creation
-	uses := func(call *ssa.Call, v ssa.Value) bool {
+	usesVal := func(call *ssa.Call, v ssa.Value) bool {
 		for _, a := range call.Call.Args {
 			for _, al := range core.ValueAliases(v) {
 				if core.SameValue(a, al) {
@@ -99,21 +99,53 @@ func c02(r *core.Report, p *core.Prog, thorough bool) {
 		}
 		return false
 	}
-	r.Check(uses(nm, nc) && core.AccessPath(nm.Call.Args[0]) == "bState", "C02.rebind", "updateState:new-trie-over-new-cache", p.Pos(nm.Pos()), "the re-created trie must be built from the block state and the re-created cache")
+	// uses: the constructor call of n takes the value made by m — directly, inside the
+	// same helper invocation, or through a parameter of n's helper bound to m's value
+	uses := func(n, m ctxNode) bool {
+		if n.hcall == nil {
+			return usesVal(n.call, m.val)
+		}
+		if m.hcall == n.hcall {
+			return usesVal(n.call, m.call)
+		}
+		for _, a := range n.call.Call.Args {
+			if prm := core.ParamOf(a); prm != nil {
+				if act := actualOf(n.hcall, prm); act != nil && usesVal(&ssa.Call{Call: ssa.CallCommon{Args: []ssa.Value{act}}}, m.val) {
+					return true
+				}
+			}
+		}
+		return false
+	}
+	// the block-state argument of the trie constructor, seen from updateState
+	bStateArg := func(n ctxNode) string {
+		a := n.call.Call.Args[0]
+		if n.hcall != nil {
+			if prm := core.ParamOf(a); prm != nil {
+				if act := actualOf(n.hcall, prm); act != nil {
+					return core.AccessPath(act)
+				}
+			}
+			return ""
+		}
+		return core.AccessPath(a)
+	}
+	r.Check(uses(nm, nc) && bStateArg(nm) == "bState", "C02.rebind", "updateState:new-trie-over-new-cache", p.Pos(nm.Pos()), "the re-created trie must be built from the block state and the re-created cache")
 	r.Check(uses(nx, nm), "C02.rebind", "updateState:new-context-over-new-trie", p.Pos(nx.Pos()), "the re-created state context must wrap the re-created trie")
 	r.Check(uses(ox, om) && uses(om, oc), "C02.rebind", "updateState:original-chain", p.Pos(ox.Pos()), "original context wraps the original trie over the original cache")
 	// EmitError on the new context, after it
-	r.Check(uses(em, nx) && core.Reaches(nx, em), "C02.rebind", "updateState:emit-on-new-context", p.Pos(em.Pos()), "the error event must be recorded on the re-created context")
+	r.Check(usesVal(em, nx.val) && core.Reaches(nx.instr(), em), "C02.rebind", "updateState:emit-on-new-context", p.Pos(em.Pos()), "the error event must be recorded on the re-created context")
 	// the variables read by the deferred closure must be re-assigned: stores of the new values to the same Allocs as the originals
-	sameVar := func(a, b *ssa.Call) bool {
+	sameVar := func(an, bn ctxNode) bool {
+		a, b := an.val, bn.val
 		for _, ra := range *a.Referrers() {
 			sa, ok := ra.(*ssa.Store)
-			if !ok || sa.Val != ssa.Value(a) {
+			if !ok || sa.Val != a {
 				continue
 			}
 			for _, rb := range *b.Referrers() {
 				sb, ok := rb.(*ssa.Store)
-				if ok && sb.Val == ssa.Value(b) && sb.Addr == sa.Addr {
+				if ok && sb.Val == b && sb.Addr == sa.Addr {
 					return true
 				}
 			}
@@ -156,7 +188,7 @@ func c02(r *core.Report, p *core.Prog, thorough bool) {
 			leaves[v] = true
 		}
 		collect(merge.Call.Args[0], 0)
-		okLeaves := len(leaves) == 2 && leaves[om] && leaves[nm]
+		okLeaves := len(leaves) == 2 && leaves[om.val] && leaves[nm.val]
 		r.Check(okLeaves, "C02.commit-arg", "updateState:commit-trie", p.Pos(merge.Pos()), fmt.Sprintf("the committed trie is one of %d values (want exactly the original and the re-created trie)", len(leaves)))
 		// on the error path the phi must select the re-created trie: check the phi edges coming from blocks dominated by the re-creation
 		badEdge := ""
@@ -168,7 +200,7 @@ func c02(r *core.Report, p *core.Prog, thorough bool) {
 			}
 			for i, e := range ph.Edges {
 				pred := ph.Block().Preds[i]
-				if nm.Block().Dominates(pred) && e == ssa.Value(om) {
+				if nm.Block().Dominates(pred) && e == om.val {
 					badEdge = fmt.Sprintf("phi in b%d takes the ORIGINAL trie on the edge from b%d, which is after the re-creation", ph.Block().Index, pred.Index)
 				}
 				chk(e, d+1)
@@ -183,9 +215,9 @@ func c02(r *core.Report, p *core.Prog, thorough bool) {
 		if e.Instr == ssa.Instruction(em) {
 			continue
 		}
-		for _, rb := range []*ssa.Call{nc, nm, nx} {
-			bad := core.Reaches(e.Instr, rb)
-			r.Check(!bad, "C02.rebind-order", "updateState:"+core.MethodName(e.Common())+"-then-"+core.MethodName(rb.Common()), p.Pos(e.Pos()),
+		for _, rb := range []ctxNode{nc, nm, nx} {
+			bad := core.Reaches(e.Instr, rb.instr())
+			r.Check(!bad, "C02.rebind-order", "updateState:"+core.MethodName(e.Common())+"-then-"+core.MethodName(rb.call.Common()), p.Pos(e.Pos()),
 				"a step whose effect must be committed must not be followed by a re-creation of the context (its effect would be discarded on the chargeable-error path)")
 		}
 	}
@@ -397,4 +429,87 @@ func exemptGlobal(g *ssa.Global) bool {
 // droppedExempt: named, reasoned exceptions for dropped-error sites.
 func droppedExempt(d DroppedError) (string, bool) {
 	return "", false
+}
+
+// ctxNode is one creation of a piece of the transaction context (cache, trie or state
+// context) as updateState sees it: val is the value updateState receives (the constructor
+// call itself, or the result of a constructor helper that returns it), call the constructor
+// call, hcall the helper invocation in updateState (nil when direct).
+type ctxNode struct {
+	val         ssa.Value
+	call, hcall *ssa.Call
+}
+
+func (n ctxNode) instr() ssa.Instruction { return n.val.(ssa.Instruction) }
+func (n ctxNode) Block() *ssa.BasicBlock { return n.instr().Block() }
+func (n ctxNode) Pos() token.Pos {
+	if n.hcall != nil {
+		return n.hcall.Pos()
+	}
+	return n.call.Pos()
+}
+
+// ctxNodes lists the creations by constructor ctor visible in fn: direct calls, and calls of
+// a same-package helper every return of which hands back, at a fixed result index, the value
+// of its single ctor call.
+func ctxNodes(fn *ssa.Function, ctor string) []ctxNode {
+	var out []ctxNode
+	for _, c := range findCalls(fn, ctor) {
+		out = append(out, ctxNode{val: c, call: c})
+	}
+	for _, cs := range core.CallsIn(fn, false, nil) {
+		hc, ok := cs.Instr.(*ssa.Call)
+		if !ok {
+			continue
+		}
+		h := core.StaticCallee(hc.Common())
+		if h == nil || h.Pkg != fn.Pkg || h.Blocks == nil || h == fn {
+			continue
+		}
+		inner := findCalls(h, ctor)
+		if len(inner) != 1 {
+			continue
+		}
+		idx := -1
+		for _, ret := range core.Returns(h) {
+			found := -1
+			for i, rv := range ret.Results {
+				if rv == ssa.Value(inner[0]) {
+					found = i
+				}
+			}
+			if found < 0 || (idx >= 0 && idx != found) {
+				idx = -2
+				break
+			}
+			idx = found
+		}
+		if idx < 0 {
+			continue
+		}
+		if h.Signature.Results().Len() == 1 {
+			out = append(out, ctxNode{val: hc, call: inner[0], hcall: hc})
+			continue
+		}
+		for _, ref := range *hc.Referrers() {
+			if ex, ok := ref.(*ssa.Extract); ok && ex.Index == idx {
+				out = append(out, ctxNode{val: ex, call: inner[0], hcall: hc})
+			}
+		}
+	}
+	return out
+}
+
+// actualOf maps a parameter of the helper called by hcall to the actual argument.
+func actualOf(hcall *ssa.Call, prm *ssa.Parameter) ssa.Value {
+	h := core.StaticCallee(hcall.Common())
+	if h == nil {
+		return nil
+	}
+	for i, q := range h.Params {
+		if q == prm && i < len(hcall.Call.Args) {
+			return hcall.Call.Args[i]
+		}
+	}
+	return nil
 }
